@@ -267,6 +267,12 @@ def _check_map(case):
             named = [q for q, a in enumerate(axes) if a is not None]
             if fault == "axis-swap-in-consumer":
                 q1, q2 = rr.sample(named, 2)
+                # (a swap is a fault only if another MapSpec names one of the two positions of this array)
+                named_elsewhere = {q for g_ in build_prog["funcs"] if g_.get("spec") and g_ is not f
+                                   for n2, ax2 in g_["spec"]["inputs"] + g_["spec"]["outputs"] if n2 == nme
+                                   for q, a2 in enumerate(ax2) if a2 is not None}
+                if not {q1, q2} & named_elsewhere:
+                    return []
                 ren = {axes[q1]: axes[q2], axes[q2]: axes[q1]}
                 if prog["sizes"][axes[q1]] != prog["sizes"][axes[q2]]:
                     pass
